@@ -47,6 +47,7 @@ double GetElementAbund(double *, int) { return 1.0; }
 double GetHNuclei(double *) { return 1.0; }
 double GetMu(double *) { return 1.0; }
 double GetGamma(double *) { return 1.0; }
+double GetNumDens(double *) { return 1.0; }
 
 static const char *RECORD = "naunet_error_record.txt";
 static long g_cur_run = -1;
